@@ -593,6 +593,16 @@ func C07(c *hx.Ctx) {
 				nt = 1
 			}
 			c.Count(1, nt)
+			if di == 0 {
+				// documented accessor: EOSMarker reports whether an end marker was met in the stream
+				if lr, e := lzma.NewReader(bytes.NewReader(s.data)); e == nil {
+					if _, e2, p2 := readAllSafe(lr, 4096, 0); e2 == nil && p2 == nil {
+						if want := ref.DecodeAlone(s.data, false).Marker; lr.EOSMarker() != want {
+							c.Violation(map[string]string{"reader": "lzma", "kind": "eos-marker-flag"}, fmt.Sprintf("valid .lzma stream %s: EOSMarker() = %v after reading to the end, the stream has marker = %v", s.name, lr.EOSMarker(), want), map[string]any{"stream": s.name, "hex": hexHead(s.data, 512)})
+						}
+					}
+				}
+			}
 			out, err, p := readAlone(s.data, dc)
 			if p != nil || err != nil || !bytes.Equal(out, s.plain) {
 				kind := "valid-stream-misread"
